@@ -139,6 +139,30 @@ def gen_cases(rng, tier):
         perm = _shuffle(rng, script, w)
         cases.append({'dm': rng.choice(W.MODES), 'pre': False, 'script': script, 'hist': hist,
                       'late': late, 'q': {'k': 'op', 'o': op}, 'perm': perm})
+    # evaluate, then declare a UNIT of ANOTHER type built from the same two units, evaluate
+    # again: the cached result must not be touched by the declaration (seeded C17-f)
+    for i in range(24 if tier == 'quick' else 240):
+        tag = ''.join(rng.choice('abcdefghk') for _ in range(3))
+        e2 = rng.choice([2, 3, -2, -3])
+        e1 = 1 if e2 > 0 else -1
+        script = [
+            {'d': 'cls', 'name': f"A{tag}", 'def': None, 'ref': f"{tag}a", 'quantum': None},
+            {'d': 'unit', 'cls': f"A{tag}", 'sym': f"{tag}ka", 'def': ['qty', ['int', '1000/1'], f"{tag}a"]},
+            {'d': 'cls', 'name': f"B{tag}", 'def': None, 'ref': f"{tag}b", 'quantum': None},
+            {'d': 'unit', 'cls': f"B{tag}", 'sym': f"{tag}hb", 'def': ['qty', ['int', '3600/1'], f"{tag}b"]},
+            {'d': 'cls', 'name': f"V{tag}", 'def': [[f"A{tag}", 1], [f"B{tag}", e1]], 'ref': None,
+             'quantum': None},
+            {'d': 'cls', 'name': f"W{tag}", 'def': [[f"A{tag}", 1], [f"B{tag}", e2]], 'ref': None,
+             'quantum': rng.choice([None, None, '1/8'])},
+        ]
+        ua, ub = f"{tag}ka", f"{tag}hb"
+        op = ['mul' if e1 > 0 else 'div', C02._opd(rng, ua, rng.choice('qu')),
+              C02._opd(rng, ub, rng.choice('qu'))]
+        late = [{'d': 'derive', 'cls': f"W{tag}", 'units': [ua, ub],
+                 'sym': rng.choice([None, f"{tag}w"])}]
+        cases.append({'dm': rng.choice(W.MODES), 'pre': False, 'script': script,
+                      'hist': [op] * rng.choice([1, 2]), 'late': late,
+                      'q': {'k': 'op', 'o': op}, 'perm': None})
     syms = None
     from vlib import siref
     syms = sorted(siref.REF)
